@@ -57,5 +57,24 @@ TTupleScalar ==
        /\ (exact[1] = 0) => Ev.probes[k].scalar = 0
 
 TInit == l = 1
-TraceSpec == TInit /\ [][TPackedDeltas \/ TPackedPoints \/ TIup \/ TGvar \/ TTupleScalar]_l
+\* the serialized tuple data of a glyph of a real font (`ser`: shared point numbers first when `shared`, then for each
+\* tuple `sizes[t]` bytes: private point numbers when `privates[t]`, packed x deltas, packed y deltas) decoded by
+\* PackedRuns against the (point, dx, dy) lists the reader yields
+RECURSIVE TupleStart(_, _, _)
+TupleStart(sizes, t, base) == IF t = 1 THEN base ELSE TupleStart(sizes, t - 1, base) + sizes[t - 1]
+TGvarRead ==
+  /\ IsEvent("gvar_read")
+  /\ LET sh == IF Ev.shared THEN DecodePoints(Ev.ser, 0) ELSE [all |-> TRUE, pts |-> <<>>, next |-> 0] IN
+     /\ Len(Ev.read) = Len(Ev.sizes)
+     /\ \A t \in DOMAIN Ev.sizes :
+          LET st == TupleStart(Ev.sizes, t, sh.next)
+              pp == IF Ev.privates[t] THEN DecodePoints(Ev.ser, st) ELSE [all |-> sh.all, pts |-> sh.pts, next |-> st]
+              cnt == IF pp.all THEN Ev.npoints ELSE Len(pp.pts)
+              dx == DecodeDeltas(Ev.ser, pp.next, cnt, <<>>)
+              dy == DecodeDeltas(Ev.ser, dx.next, cnt, <<>>)
+              rd == Ev.read[t]
+          IN /\ dy.next <= st + Ev.sizes[t]
+             /\ Len(rd) = cnt
+             /\ \A i \in 1..cnt : rd[i] = <<(IF pp.all THEN i - 1 ELSE pp.pts[i]), dx.vals[i], dy.vals[i]>>
+TraceSpec == TInit /\ [][TPackedDeltas \/ TPackedPoints \/ TIup \/ TGvar \/ TTupleScalar \/ TGvarRead]_l
 =============================================================================
